@@ -878,6 +878,8 @@ class TempoClock(Clock, metaclass=MetaTempoClock):
                             id(self), exc_info=1)
                     finally:
                         _libsc3.main._in_awake_call = False
+                    # The task may have changed the tempo or beats.
+                    elapsed_beats = self.elapsed_beats()
 
     def stop(self):
         '''Stop the clock's scheduling thread.
